@@ -89,8 +89,18 @@ class Session:
             if filename is not None:
                 sub.attrs['main_file'] = filename
         sub.attrs['method:replace_main'] = replace_main
-        sub.attrs['method:set_line_offset'] = lambda n, filename=None: log.append(('offset', n))
-        sub.attrs['method:clear_line_offsets'] = lambda *a: log.append(('clear_offsets',))
+        # the offset in force for the main file (what every tool adds to the lines it reports)
+        sub.attrs['offset_in_force'] = 0
+
+        def set_line_offset(n, filename=None):
+            log.append(('offset', n))
+            sub.attrs['offset_in_force'] = n
+
+        def clear_line_offsets(*a):
+            log.append(('clear_offsets',))
+            sub.attrs['offset_in_force'] = 0
+        sub.attrs['method:set_line_offset'] = set_line_offset
+        sub.attrs['method:clear_line_offsets'] = clear_line_offsets
         self.source = {'substitutions': [], 'sections': None, 'section': None, 'independent': None,
                        'section_group': None, 'success': True, 'section_pattern': None}
         source = self.source
@@ -181,6 +191,12 @@ def r3_next_section_table(ctx, sym, mod, pattern_text):
                     ok = len(missing) == 1 and missing[0][1:] == (k, n_sections)
                     why = "asking for section %d of %d gives %r instead of not_enough_sections(%d, %d)" % (
                         k, n_sections, missing or mains[-1:], k, n_sections)
+                    # the whole file is what is presented now: no offset may stay in force
+                    ctx.check(sess.submission.attrs['main_code'] != text or
+                              sess.submission.attrs['offset_in_force'] == 0, 'R3', key + ':no-stale-offset', mod, fn,
+                              "past the last section the whole file is presented again but line offset %r of the last "
+                              "section stays in force" % sess.submission.attrs['offset_in_force'],
+                              "a syntax/runtime/TIFA problem on file line 14 is then reported on line 14 + offset")
                 ctx.check(ok, 'R3', key, mod, fn, why, "file %r, %s mode, next_section() call number %d" % (
                     text, 'independent' if independent else 'cumulative', k), construct='next_section',
                           sample={'file': text[:30], 'k': k, 'offset': offs})
@@ -191,6 +207,13 @@ def r3_next_section_table(ctx, sym, mod, pattern_text):
             else:
                 # having asked for sections past the end, the session still ends cleanly
                 e = sess.stop()
+                ctx.check(e is not None or sess.submission.attrs['offset_in_force'] == 0, 'R3',
+                          'stop_sections:no-stale-offset[%r,%s]' % (text[:24], 'independent' if independent else
+                                                                    'cumulative'), mod, mod.func('stop_sections'),
+                          "after stop_sections() the whole file is the main code again but line offset %r stays in "
+                          "force" % sess.submission.attrs['offset_in_force'],
+                          "separate_into_sections(); next_section(); next_section(); stop_sections(); run(): a "
+                          "ZeroDivisionError on file line 6 is reported on line 9")
                 ctx.check(e is None and sess.submission.attrs['main_code'] == text and
                           sess.report.attrs['groups'] == ['instructor-group'], 'R3',
                           'stop-after-past-the-end[%r,%s]' % (text[:24], 'independent' if independent else 'cumulative'),
@@ -420,6 +443,12 @@ def r4_restoration(ctx, sym, mod):
             ok = e is None and sess.submission.attrs['main_code'] == text and \
                 sess.submission.attrs['main_file'] == 'answer.py' and not sess.source.get('substitutions') and \
                 sess.source.get('section_group') is None
+            ctx.check(e is not None or sess.submission.attrs['offset_in_force'] == 0, 'R4',
+                      'stop_sections:no-stale-offset' + tag, mod, st,
+                      "after stop_sections() the whole file is the main code again but line offset %r of the last "
+                      "section stays in force" % sess.submission.attrs['offset_in_force'],
+                      "separate_into_sections(); next_section(); next_section(); stop_sections(); run(): a "
+                      "ZeroDivisionError on file line 6 is reported on line 9")
             ctx.check(ok, 'R4', 'stop_sections:restores' + tag, mod, st,
                       "after stop_sections the main code is %r (file %r), substitutions %r%s" % (
                           sess.submission.attrs['main_code'], sess.submission.attrs['main_file'],
@@ -427,10 +456,19 @@ def r4_restoration(ctx, sym, mod):
                       "after stop_sections() the submission's main code is still a section, or a later "
                       "stop_any_sections() pops someone else's substitution")
     sa = mod.func('stop_any_sections')
-    ok = any(isinstance(n, ast.If) and norm(n.test).endswith("['substitutions']") and
-             any(call_name(c) == 'stop_sections' for c in calls(n)) for n in body_walk(sa))
-    ctx.check(ok, 'R4', 'stop_any_sections', mod, sa, "stop_any_sections does not stop active sections",
-              "resolving leaves the last section as main code")
+    ctx.analysed_function(mod, sa)
+    for active in (True, False):
+        sess = Session(ctx, sym, mod, SAMPLES[0], True)
+        if active:
+            if sess.separate() is not None or sess.next_section() is not None:
+                continue
+        e = sess._run('stop_any_sections', [], {'report': sess.report})
+        ok = e is None and sess.submission.attrs['main_code'] == SAMPLES[0] and not sess.source.get('substitutions')
+        ctx.check(ok, 'R4', 'stop_any_sections[%s]' % ('sections active' if active else 'no sections'), mod, sa,
+                  "stop_any_sections with %s %s; main code %r" % (
+                      'sections active' if active else 'no sections',
+                      'returns' if e is None else 'raises %s' % e.kind, sess.submission.attrs['main_code'][:30]),
+                  "resolving leaves the last section as main code")
     # hook agreement
     triggers = set()
     regs = []
